@@ -51,6 +51,7 @@ CLAIMS = {
 import json
 import os
 import random
+import re
 import shutil
 import threading
 import time
@@ -86,7 +87,28 @@ def build(ctx):
 
 # ----------------------------------------------------------------------------------------- TLC configs
 
+VARIANT = {"RemoveFirst": True, "NilHandles": True}
+
+
+def detect_variant(ctx):
+    """Which compact() the tree contains: the model has both the code as found (remove-then-rename, handles set to
+    nil before the swap) and the repaired one (reports/snapshot-fix-1/2.diff).  This only selects the model the traces
+    are compared with; a wrong guess shows up as divergences, never as a verdict (the monitors do not use the model)."""
+    src = open(os.path.join(vlib.REPO, "serf", "snapshot.go")).read()
+    m = re.search(r"func \(s \*Snapshotter\) compact\(\).*?\n}\n", src, re.S)
+    body = m.group(0) if m else src
+    VARIANT["RemoveFirst"] = "os.Remove(" in body
+    VARIANT["NilHandles"] = bool(re.search(r"s\.buffered\s*=\s*nil", body))
+    ctx.log("code variant:", VARIANT)
+
+
 def consts(nn, na, maxt, steps, sess, faults, crash, leave, mcs, ral, evil="{}", bpn=40):
+    return ("CONSTANT RmFirst = %s\nCONSTANT NilH = %s\n" % (
+        "TRUE" if VARIANT["RemoveFirst"] else "FALSE", "TRUE" if VARIANT["NilHandles"] else "FALSE")) + _consts(
+        nn, na, maxt, steps, sess, faults, crash, leave, mcs, ral, evil, bpn)
+
+
+def _consts(nn, na, maxt, steps, sess, faults, crash, leave, mcs, ral, evil, bpn):
     return ("CONSTANT NN = %d\nCONSTANT NA = %d\nCONSTANT MaxT = %d\nCONSTANT MaxSteps = %d\nCONSTANT MaxSess = %d\n"
             "CONSTANT MaxFaults = %d\nCONSTANT CrashOK = %s\nCONSTANT LeaveOK = %s\nCONSTANT McsSet = %s\n"
             "CONSTANT RalSet = %s\nCONSTANT Evil = %s\nCONSTANT Bpn = %d\n" % (
@@ -94,7 +116,8 @@ def consts(nn, na, maxt, steps, sess, faults, crash, leave, mcs, ral, evil="{}",
                 mcs, ral, evil, bpn))
 
 
-TRACE_CFG = "SPECIFICATION TraceSpec\nINVARIANT Done\n" + consts(NN, NA, MAXT, 0, 0, 0, False, False, "{0}", "{FALSE}", bpn=256)
+def trace_cfg():
+    return "SPECIFICATION TraceSpec\nINVARIANT Done\n" + consts(NN, NA, MAXT, 0, 0, 0, False, False, "{0}", "{FALSE}", bpn=256)
 
 
 MC_WORKERS = max(2, min(8, vlib.NCPU // 2))
@@ -112,7 +135,7 @@ def reachable(ctx, c, inv, what):
     """A recorded finding must be reachable in the model: the invariant that denies it must FAIL."""
     r = vlib.tlc(ctx, "Snapshot", c + "INIT Init\nNEXT Next\nINVARIANT %s\n" % inv, timeout=1200, workers=2)
     if not r.violated:
-        ctx.log("finding %s is NOT reachable in the model (fixed in the source model? waiver would be vacuous)" % what)
+        ctx.log("finding %s is not reachable in the model of this code variant %s" % (what, VARIANT))
         return False
     return True
 
@@ -241,7 +264,7 @@ def run_chunk(ctx, binary, scheds, tag):
     panics = ""
     if os.path.exists(tp + ".panics"):
         panics = open(tp + ".panics").read().strip()
-    rep = vlib.validate(sub, "Trace_Snapshot", TRACE_CFG, tp, timeout=3000)
+    rep = vlib.validate(sub, "Trace_Snapshot", trace_cfg(), tp, timeout=3000)
     rep.path = tp
     return rep, panics
 
@@ -353,6 +376,7 @@ def load_replay(replay):
 # ----------------------------------------------------------------------------------------- C10
 
 def run(ctx, replay=None):
+    detect_variant(ctx)
     binary = build(ctx)
     if replay:
         return run_replay(ctx, binary, replay)
